@@ -41,10 +41,12 @@ KINDS = ["dangling", "loop", "fifo", "socket", "dotdot", "backslash", "stat-ENOE
          "sidecar-fifo", "cache-fifo", "cache-socket", "cache-dangling", "cache-dir", "dot-loop", "dot-stat-EACCES", "dot-stat-EIO", "dot-stat-ELOOP", "stat-ELOOP",
          "cap-fifo", "cap-socket", "cap-dangling", "zipcache-fifo", "zipcache-socket", "zip-emptylink",
          "zip-badlinks", "gmap-vanish", "gmap-stat-EACCES", "gmap-stat-ENOENT",
-         "gmapname-socket", "gmapname-fifo", "gmapname-dir", "gmapname-dangling", "gmapname-loop"]
+         "gmapname-socket", "gmapname-fifo", "gmapname-dir", "gmapname-dangling", "gmapname-loop",
+         "zip-damaged", "zip-oddmembers", "pyg-broken", "pyg-nomain", "pyg-raises", "tal-notype", "gmap-badport"]
 # kinds that need the ZIP handler in the chain / a gophermap in the directory
-ZIP_KINDS = ("zipcache-fifo", "zipcache-socket", "zip-emptylink", "zip-badlinks")
-GMAP_KINDS = ("gmap-vanish", "gmap-stat-EACCES", "gmap-stat-ENOENT")
+ZIP_KINDS = ("zipcache-fifo", "zipcache-socket", "zip-emptylink", "zip-badlinks", "zip-damaged", "zip-oddmembers",
+             "pyg-broken", "pyg-nomain", "pyg-raises", "tal-notype")
+GMAP_KINDS = ("gmap-vanish", "gmap-stat-EACCES", "gmap-stat-ENOENT", "gmap-badport")
 PREFIXES = ["0", "a", "m", "zz", "B"]
 
 
@@ -162,6 +164,26 @@ def _bad_entry(rng, kind, pre, i):
                                                ".", "d/../..", ""], 3)):
                 members.append(["lnk%d" % j, to, 0o120777])
         ent.append({"p": pre + name, "k": "zip", "members": members})
+    elif kind == "zip-damaged":
+        # the end-of-archive record is there (a partial download, a flipped signature): is_zipfile() says yes
+        import base64
+        name = base + ".zip"
+        ent.append({"p": pre + name, "k": "file",
+                    "d": {"b64": base64.b64encode(b"\0" * rng.choice([0, 300]) + b"PK\x05\x06" + b"\0" * 18).decode()}})
+    elif kind == "zip-oddmembers":
+        name = base + ".zip"
+        ent.append({"p": pre + name, "k": "zip", "members": [["a", "a file\n"], ["a/b", "below a file\n"]]})
+    elif kind.startswith("pyg-"):
+        name = base + ".pyg"
+        body = {"pyg-broken": "def (:\n", "pyg-nomain": "x = 1\n", "pyg-raises": "raise RuntimeError('at import')\n"}[kind]
+        ent.append({"p": pre + name, "k": "file", "d": body, "x": True})
+    elif kind == "tal-notype":
+        name = base + ".tal"
+        ent.append({"p": pre + name, "k": "file", "d": "<html><body>t</body></html>\n"})
+    elif kind == "gmap-badport":
+        # a link line of the directory's gophermap whose port field is not a number (the line is added to the
+        # faulty world's gophermap in gen())
+        name = "remote-" + base.replace("\udcae", "").replace("\udcff\udcfe", "")
     elif kind.startswith("gmap-"):
         # the directory is a Bucktooth gophermap directory; one linked file disappears (or cannot be
         # inspected any more) after the handler has seen that it exists
@@ -206,7 +228,7 @@ def _bad_entry(rng, kind, pre, i):
 def gen(seed, index, tier):
     rng = random.Random(seed)
     sub = rng.random() < 0.7
-    dname = "docs" if sub else ""
+    dname = ("docs" if rng.random() < 0.8 else rng.choice(["a", "1", "h"])) if sub else ""
     pre = (dname + "/") if dname else ""
     dspec, names = world.gen_dir(rng, dname, n=rng.randrange(2, 9), mail=rng.random() < 0.2)
     base = ([{"p": dname, "k": "dir"}] if sub else []) + dspec
@@ -232,6 +254,12 @@ def gen(seed, index, tier):
             else:
                 badspec.append(e)
         faults.extend(fl)
+    if len(dname) == 1:
+        # a type-rewriting handler at the end of the list would read '/a/NAME' as 'NAME with type a':
+        # the root has healthy files of the same names
+        for b in bad:
+            if "/" not in b and not b.startswith("."):
+                base.append({"p": b, "k": "file", "d": "the root's file of that name\n"})
     # sometimes a UMN link file also talks about the unservable entry (hides it, titles it)
     kinds = list(kinds)
     if rng.random() < 0.3 and not any(e["p"] == pre + ".names" for e in base):
@@ -247,7 +275,7 @@ def gen(seed, index, tier):
             badspec.append({"p": pre + ".names", "k": "file", "d": "\n".join(blocks)})
             kinds = kinds + ["link-block-names-it"]
     handlers = rng.choice(["default", "default", "plaindir"])
-    if any(k in ZIP_KINDS for k in kinds):
+    if any(k in ZIP_KINDS for k in kinds) or (len(dname) == 1 and rng.random() < 0.7):
         handlers = "full"
     elif any(k.startswith("cap-") for k in kinds):
         handlers = "default"
@@ -256,10 +284,17 @@ def gen(seed, index, tier):
         if handlers == "plaindir":
             handlers = "default"
         lines = ["iA gophermap directory\t\tnull.host\t1"]
-        for nm in names + [b for b, k in zip(bad, kinds) if k in GMAP_KINDS]:
+        for nm in names + [b for b, k in zip(bad, kinds) if k in GMAP_KINDS and k != "gmap-badport"]:
             lines.append("%sTitle of %s\t%s" % ("1" if "." not in nm else "0", nm, nm))
         rng.shuffle(lines)
         base.append({"p": pre + "gophermap", "k": "file", "d": "\n".join(lines) + "\n"})
+        badport = [b for b, k in zip(bad, kinds) if k == "gmap-badport"]
+        if badport:
+            lines2 = list(lines)
+            for b in badport:
+                lines2.insert(rng.randrange(len(lines2) + 1),
+                              "1Elsewhere\t%s\thost.example\t%s" % (b, rng.choice(["seventy", "+", "70.0", "7O"])))
+            badspec.append({"p": pre + "gophermap", "k": "file", "d": "\n".join(lines2) + "\n"})
     return {
         "spec": base, "bad_spec": badspec, "bad": bad, "kinds": kinds, "faults": faults,
         "dir": dname, "proto": rng.choice(proto.LISTING_PROTOCOLS),
@@ -277,6 +312,7 @@ def _strip_bad(entries, sc):
     targets |= set(("/" + e["p"]).encode("utf-8", "surrogateescape") for e in sc["bad_spec"])
     # (the abstract lines of a faulty entry's own sidecar go with it)
     return [e for e in entries if not (e[0] == "link" and e[2] in targets)
+            and not (e[0] == "link" and e[1].strip() == b"Elsewhere" and "gmap-badport" in sc["kinds"])
             and not (e[0] == "info" and e[1].strip() == b"about it")]
 
 
@@ -350,7 +386,7 @@ def execute(sc, tape=None):
             counters = common.run_counters(run)
             if inconclusive:
                 counters["unparsed_success_no_verdict"] = 1
-        special = any(k.startswith(("cache-", "cap-", "zipcache-", "zip-", "gmapname-")) or k in ("dot-loop", "dangling", "loop", "fifo", "socket", "dotdot", "backslash",
+        special = any(k.startswith(("cache-", "cap-", "zipcache-", "zip-", "gmapname-", "pyg-", "tal-")) or k in ("dot-loop", "dangling", "loop", "fifo", "socket", "dotdot", "backslash",
                             "dot-dangling", "dot-socket", "dot-fifo", "sidecar-socket",
                             "sidecar-dangling", "sidecar-fifo") for k in sc["kinds"])
         if special and counters.get("fs_listdir", 0):
